@@ -4,6 +4,15 @@
 // contract and records a ghost event trace.  Bounded by the rule-list length (MAX_RULES), complete over every
 // other choice (filter results, deny positions, duplicates, feature sets, connect / relay outcomes).
 #![allow(dead_code, unused_variables, unused_macros, static_mut_refs, unused_imports)]
+// `tracing::level!(..)` written with its path by an edit keeps compiling (log statements have no effect on the checks)
+pub mod tracing {
+    macro_rules! trace { ($($t:tt)*) => { () } }
+    macro_rules! debug { ($($t:tt)*) => { () } }
+    macro_rules! info { ($($t:tt)*) => { () } }
+    macro_rules! warn_ { ($($t:tt)*) => { () } }
+    macro_rules! error { ($($t:tt)*) => { () } }
+    pub(crate) use {trace, debug, info, warn_ as warn, error};
+}
 
 macro_rules! info { ($($t:tt)*) => { () } }
 macro_rules! warn { ($($t:tt)*) => { () } }
